@@ -23,6 +23,7 @@ import (
 	"github.com/regclient/regclient"
 	"github.com/regclient/regclient/mod"
 	"github.com/regclient/regclient/pkg/archive"
+	"github.com/regclient/regclient/scheme/reg"
 	"github.com/regclient/regclient/types/platform"
 	"github.com/regclient/regclient/types/ref"
 	"github.com/regclient/regclient/zz_verif/audit"
@@ -245,7 +246,11 @@ func setup(c Case, b *built) (*env, error) {
 	case "stale-digest":
 		e.tgtRef = e.tgtRef.SetDigest(b.Top)
 	}
-	e.rc = rcutil.New(e.m, rcutil.Conf{})
+	conf := rcutil.Conf{}
+	if c.Cache {
+		conf.RegOpts = append(conf.RegOpts, reg.WithCache(5*time.Minute, 500)) // what regctl's root command sets
+	}
+	e.rc = rcutil.New(e.m, conf)
 	return e, nil
 }
 
